@@ -48,8 +48,8 @@ def c04(A):
         attempts = []
         for call in c.connect_calls:
             ret = A.rets.get(call["i"])
-            if ret is None or call["info"].get("invalid"):
-                continue
+            if ret is None or call["info"].get("invalid") or call["info"].get("raw"):
+                continue      # argument-boundary calls: C20's (one that writes nothing leaves the protocol as it was)
             pk = [e for e in c.pkts if e.get("api") == call["i"]]
             attempts.append((call, ret, pk))
         for n, (call, ret, pk) in enumerate(attempts):
